@@ -158,7 +158,9 @@ def trigger(op, args, node, kind, v):
     if op == "str.to_code" and len(args[0]) != 1:
         return "C05:str.to_code:non-single-character"
     if op == "str.to.int":
-        return "C05:str.to.int:signed-or-non-numeral"  # never judged; see guards
+        # signed / non-numeral arguments are outside the property and never judged (see guards); a plain numeral read
+        # wrongly has no listed mechanism
+        return "C05:str.to.int:signed-or-non-numeral" if not (isinstance(args[0], str) and args[0].isdigit()) else None
     if op in ("str.<", "str.<=", "<", "<=", ">", ">=") and any(isinstance(a, str) for a in args):
         if any(ord(c) > 0xff for a in args if isinstance(a, str) for c in a):
             return "C05:string-literal:char>0xff"
